@@ -26,7 +26,9 @@ Lists == SeqsOf(A1, 1) \cup SeqsOf(A1, 2) \cup SeqsOf(A2, 3) \cup SeqsOf(A3, 4)
          \cup {<<Rg(0, 1, TRUE, FALSE), Rg(1, 2, FALSE, FALSE), Pt(2), Bw(3), Rg(3, L, FALSE, TRUE)>>}
 
 Flat == A0 \cup {Jn(p) : p \in Lists} \cup {Od(p) : p \in SeqsOf(A1, 1) \cup SeqsOf(A1, 2) \cup SeqsOf(A3, 3)}
+A4 == {Pt(0), Bw(2), Rg(1, 2, FALSE, FALSE), Rg(2, 3, FALSE, FALSE)}
 Pairs2 == SeqsOf(A3, 2)
+Pairs4 == SeqsOf(A4, 2)
 Nested ==
   {Jn(<<Jn(p), a>>) : p \in Pairs2, a \in A3}
   \cup {Jn(<<a, Jn(p)>>) : p \in Pairs2, a \in A3}
@@ -34,6 +36,12 @@ Nested ==
   \cup {Od(<<Jn(p), a>>) : p \in Pairs2, a \in A3}
   \cup {Jn(<<Cp(a), Cp(b)>>) : a \in A2, b \in A2}
   \cup {Jn(<<Cp(Jn(p)), Cp(a)>>) : p \in Pairs2, a \in A3}
+  \cup {Jn(<<Cp(a), Cp(Jn(p))>>) : p \in Pairs2, a \in A3}
+  \cup {Od(<<Cp(a), Cp(Jn(p))>>) : p \in Pairs2, a \in A4}
+  \cup {Jn(<<Cp(a), Cp(Od(p))>>) : p \in Pairs4, a \in A3}
+  \cup {Jn(<<Cp(Jn(p)), Cp(Jn(q))>>) : p \in Pairs4, q \in Pairs4}
+  \cup {Jn(<<a, Cp(b), Cp(Jn(p))>>) : p \in Pairs4, a \in A4, b \in A4}
+  \cup {Jn(<<Cp(Jn(p)), b, Cp(a)>>) : p \in Pairs4, a \in A4, b \in A4}
   \cup {Cp(Jn(<<Cp(a), b>>)) : a \in A3, b \in A3}
   \cup {Jn(<<Cp(a), Cp(b), Cp(c)>>) : a \in A3, b \in A3, c \in A3}
 TU == Flat \cup {Cp(t) : t \in Flat} \cup Nested \cup {Cp(t) : t \in Nested}
